@@ -123,6 +123,37 @@ func (b *Body) lockKeysIn() []string {
 	return out
 }
 
+// lockWrappers: bodies that only acquire or only release a mutex by design (confirmed by reading); every other
+// acquire-only body is a missing unlock.
+var lockWrappers = map[string]string{
+	"pkg/cafs.baseBuffer.Pin":   "cafs buffers use the mutex `busy` as a pin: Pin acquires",
+	"pkg/cafs.baseBuffer.Unpin": "…and Unpin releases; pairing is checked at the users (lru-pin rule)",
+}
+
+// lockKindsOf returns lkLock if the body only locks the key, lkUnlock if it only unlocks it, 0 if both.
+func (b *Body) lockKindsOf(key string) int {
+	hasLock, hasUnlock := false, false
+	ast.Inspect(b.Block, func(n ast.Node) bool {
+		if c, ok := n.(*ast.CallExpr); ok {
+			if op, ok := lockOpOf(b.Fn, c); ok && op.key == key {
+				if op.kind == lkLock {
+					hasLock = true
+				} else {
+					hasUnlock = true
+				}
+			}
+		}
+		return true
+	})
+	switch {
+	case hasLock && !hasUnlock:
+		return lkLock
+	case hasUnlock && !hasLock:
+		return lkUnlock
+	}
+	return 0
+}
+
 // checkLockPairingKey runs the typestate automaton for one mutex key over the body.
 func (b *Body) checkLockPairingKey(key string) (viol []lockViolation, nOps int) {
 	const U, L, LD, UD = 1, 2, 4, 8
@@ -224,6 +255,13 @@ func checkLockPairing(c *Ctx, rule string, f *FuncInfo) int {
 	}
 	for _, b := range bodies {
 		for _, key := range b.lockKeysIn() {
+			if kinds := b.lockKindsOf(key); (kinds == lkLock || kinds == lkUnlock) && lockWrappers[b.Key()] != "" {
+				// acquire-only or release-only body: a wrapper paired by its callers (cafs buffers use a mutex as a pin:
+				// Pin locks, Unpin unlocks)
+				n++
+				c.ok(rule, b.Key()+":"+key, p.Pos(b.Block.Pos()), "acquire-only / release-only wrapper of "+key+": pairing is the callers' obligation (Pin/Unpin protocol)")
+				continue
+			}
 			viol, nOps := b.checkLockPairingKey(key)
 			n++
 			if len(viol) == 0 {
